@@ -39,6 +39,12 @@ def gen_cases(tier, seed):
     # short serial numbers: many near-ties between candidates
     for i in range(300 if tier == 'quick' else 4000):
         cases.append(common.mk('SEGNO-%04d' % i, tag='serial', error=rng.choice(['L', 'M', 'Q', 'H'])))
+    # many small QR symbols: exact ties for the minimal penalty occur in 2-3 % of version 1 / 2 symbols, and only a part
+    # of those ties separates "lowest-numbered" from other tie-breaks (smaller N4, last evaluated ...)
+    for i in range(6000 if tier == 'quick' else 60000):
+        n_ = rng.randint(1, 16)
+        content = ''.join(rng.choice('0123456789ABCDEFGHIJKLMNOPQRSTUVWXYZ $%*+-./:') for _ in range(n_)) if i % 3 else gen.digits(rng, n_ + rng.randint(0, 12))
+        cases.append(common.mk(content, tag='small-qr', micro=False, **({'error': rng.choice(['L', 'M', 'Q', 'H'])} if i % 2 else {})))
     # every version once (QR versions > 10 are slow: one each)
     for v in oracle.ALL_VERSIONS:
         lv = oracle.levels_of(v)[0]
